@@ -191,6 +191,8 @@ SUBDIVS = (1, 2, 3, 4, 8, 16, 48, 192)
 #: extra subdivisions used only by the "tempo spacing off the snap grid" class: with these the beat distance
 #: between two consecutive tempo events can have a fractional part whose denominator exceeds 96
 FINE_SUBDIVS = (5, 7, 11, 13, 25, 64, 100, 128, 256, 400, 768, 1000)
+#: unusual subdivisions for NOTE lines (objects only, never tempo lines): positions are exact rationals for the reader
+NOTE_FINE_SUBDIVS = (5, 7, 480, 1000)
 TOL_MS = 1e-3
 
 TITLES = ["plain title", "Title with  two spaces", "searoad tracks =side blue= (LN-Applied)", "海の道 -remix-", "a:b#c", "7"]
@@ -224,6 +226,11 @@ def gen_case(rng, layout_name, *, subdivs=SUBDIVS, n_lines=None, ln=False, order
         if i != lnobj:
             wav_ids.add(i)
     wav_ids = sorted(wav_ids)
+    if rng.random() < 0.2:
+        # ids are two base-36 characters; files in the wild also use lower case - consistently in #WAVxx and the data
+        low = [i.lower() for i in wav_ids]
+        if len(set(low)) == len(low) and (lnobj or "").lower() not in low:
+            wav_ids = low
     wav = {i: rng.choice(["kick", "snare 02", "ピアノ_c4", "hat"]) + f"_{k}" + rng.choice([".wav", ".ogg"]) for k, i in enumerate(wav_ids)}
     if not jp:
         wav = {k: v.replace("ピアノ", "piano") for k, v in wav.items()}
@@ -255,6 +262,8 @@ def gen_case(rng, layout_name, *, subdivs=SUBDIVS, n_lines=None, ln=False, order
         m = rng.randrange(0, measures)
         if group == "tempo":
             d = rng.choice(FINE_SUBDIVS if fine_tempo and rng.random() < 0.7 else subdivs)
+        elif group is not None and not fine_tempo and rng.random() < 0.12:
+            d = rng.choice(NOTE_FINE_SUBDIVS)  # note lines may use any subdivision ("any measure subdivision per line")
         else:
             d = rng.choice(subdivs)
         k = min(d, rng.choice([1, 1, 2, 3, 4]))
